@@ -33,7 +33,8 @@ void h_slots(void) {
 
 #ifdef CLAIM
 struct rep { ticket_type head_counter, tail_counter; };
-struct bqueue { struct rep *my_queue_representation; ptrdiff_t my_capacity; };
+struct concurrent_monitor { int dummy; };
+struct bqueue { struct rep *my_queue_representation; ptrdiff_t my_capacity; struct concurrent_monitor *my_monitors; };
 struct pop_result { bool first; ticket_type second; };
 static struct rep R;
 /* ghost */
@@ -65,7 +66,8 @@ static struct bqueue *g_bq;
 #define GHOSTCAS_push_CAS_1 __CPROVER_assert((ptrdiff_t)(my_t - R.head_counter) < g_bq->my_capacity, "C09.push: a push ticket is taken without blocking only while size < capacity at the CAS")
 static bool STUB_lane_pop(struct rep *q, ticket_type t) { g_lane_calls++; g_lane_ticket = t; __CPROVER_assert(my_made && t == my_t, "C09.pop: the lane is asked for exactly the claimed ticket"); bool ok = nondet_bool(); if (!ok) my_made = false; /* invalid entry: the ticket is consumed, retry */ return ok; }
 static void STUB_lane_push(struct bqueue *b, ticket_type t) { g_lane_calls++; g_lane_ticket = t; }
-static void STUB_notify(ticket_type t) {}
+bool g_notified; ticket_type g_notified_t;
+static void STUB_notify(ticket_type t) { g_notified = true; g_notified_t = t; }
 #define LOOPC(extra) __CPROVER_assigns(ticket, R, o_made, o_t, my_made, my_t, g_size_at_tail_read, g_size_at_head_read, g_lane_calls, g_lane_ticket) __CPROVER_loop_invariant(QINV && ticket < LIM && !my_made && (extra))
 /* a ticket held in a local is a past value of the counter it was read from */
 #define LOOP_pop_1 LOOPC(1)
@@ -98,8 +100,81 @@ void h_push_if_not_full(void) {
     if (ok) {
         OBLIGATION(my_made && g_lane_calls == 1 && g_lane_ticket == my_t, "C09.push: the item is pushed once, under the claimed ticket");
         OBLIGATION(!o_made || o_t != my_t, "C09.push: push tickets are unique");
+        OBLIGATION(g_notified && g_notified_t == my_t, "C09.push: poppers waiting for this ticket are notified with it");
     } else
         OBLIGATION(g_size_at_head_read >= b.my_capacity && !my_made && g_lane_calls == 0, "C09.push: full is reported only from an instant at which size() >= capacity (a negative size, i.e. waiting poppers, is never full)");
     VACUITY_END();
 }
+#ifdef WAKE
+/* ---- who is woken: blocked push/pop complete as soon as space/items appear (no lost wake-up) ----
+   A sleeper of monitor `tag` with context c sleeps only while counter(tag) <= c  (pop: tail_counter <= its ticket; push: head_counter <= ticket - capacity).
+   The step of counter(tag) from c to c+1 is the claim of ticket c by a push (tag items_avail) / pop (tag slots_avail).
+   Proved here, for a ghost sleeper context W chosen arbitrarily:
+     (P) notify(tag, t) wakes every sleeper of `tag` with context <= t                     (predicate_leq + notify_bounded_queue_monitor)
+     (Q) an operation that claimed tickets c1..ck on counter(tag) calls notify(tag, t) with t >= every ci, after its lane operation  (internal_pop / internal_push / *_if_*)
+   Hence every sleeper whose wait condition was falsified by this operation is woken by it. */
+#include "wake_decl.inc"
+size_t W; bool g_woken[2]; unsigned g_notifies[2]; size_t g_nt[2]; struct concurrent_monitor MON[2];
+bool g_claimed_W;            /* this call claimed ticket W on the counter it advances */
+unsigned long g_lane_at_notify; unsigned g_waits; size_t g_wait_tag; ptrdiff_t g_wait_ctx;
+static void STUB_monitor_notify(struct concurrent_monitor *m, struct predicate_leq p) {
+    size_t tag = (size_t)(m - MON);
+    __CPROVER_assert(tag < 2, "C09.wake: a monitor of this queue");
+    bool w = predicate_leq_call(&p, (uintptr_t)W);
+    __CPROVER_assert(!(W <= p.my_ticket) || w, "C09.wake: notify(t) wakes every sleeper whose context is <= t (a sleeper whose own ticket never notifies - throwing constructor, skipped invalid slot - is still woken)");
+    g_woken[tag] = g_woken[tag] || w; g_notifies[tag]++; g_nt[tag] = p.my_ticket; g_lane_at_notify = g_lane_calls;
+}
+static void STUB_wait(struct bqueue *b, size_t tag, ptrdiff_t ctx) { g_waits++; g_wait_tag = tag; g_wait_ctx = ctx; }
+static struct pop_result STUB_try_pop_impl(struct rep *q) {
+    /* contract proved in claim.try_pop: on success the returned ticket was claimed on head_counter */
+    struct pop_result r; r.first = nondet_bool(); r.second = nondet_size_t();
+    if (r.first) { __CPROVER_assume(r.second < q->head_counter); my_made = true; my_t = r.second; if (r.second == W) g_claimed_W = true; }
+    return r;
+}
+#undef ATOMIC_LOAD_AT
+#define ATOMIC_LOAD_AT(site, f) ({ interfere(); (f); })
+#define ATOMIC_POSTINC_AT(site, f) ({ interfere(); __CPROVER_assume((f) < LIM - 1); size_t old_ = (f); (f) = old_ + 1; my_t = old_; my_made = true; if (old_ == W) g_claimed_W = true; \
+        __CPROVER_assert(QINV, "guarantee: INV re-established at " #site); old_; })
+#define LOOP_bpop_1 __CPROVER_assigns(target, R, o_made, o_t, my_made, my_t, g_lane_calls, g_lane_ticket, g_claimed_W, g_waits, g_wait_tag, g_wait_ctx) __CPROVER_loop_invariant(QINV && g_notifies[0] == 0 && g_notifies[1] == 0 && (!g_claimed_W || W < R.head_counter) && !my_made && (g_waits == 0 || g_wait_tag == cbq_items_avail_tag))
+#include "wake.inc"
+static void winit(int which, struct bqueue *b) {
+    init(which); W = nondet_size_t(); g_woken[0] = g_woken[1] = false; g_notifies[0] = g_notifies[1] = 0; g_claimed_W = false; g_waits = 0;
+    b->my_queue_representation = &R; b->my_capacity = nondet_long(); b->my_monitors = MON; g_bq = b;
+    __CPROVER_assume(b->my_capacity >= 1);
+}
+size_t IN_w, IN_t;
+void h_wake_pred(void) {
+    struct bqueue b; winit(0, &b);
+    size_t tag = nondet_size_t(), t = IN_t = nondet_size_t(); IN_w = W; __CPROVER_assume(tag < monitors_number);
+    notify_bounded_queue_monitor(MON, tag, t);
+    OBLIGATION(g_notifies[tag] == 1 && g_notifies[1 - tag] == 0 && g_nt[tag] == t, "C09.wake: the notification goes to the monitor named by the tag, with the ticket");
+    OBLIGATION(!(W <= t) || g_woken[tag], "C09.wake: every sleeper with context <= ticket is woken");
+    VACUITY_END();
+}
+void h_wake_pop(void) {
+    struct bqueue b; winit(0, &b);
+    internal_pop(&b, NULL);
+    OBLIGATION(g_notifies[cbq_slots_avail_tag] == 1 && g_notifies[cbq_items_avail_tag] == 0, "C09.wake: a pop notifies the pushers' monitor once, and only it");
+    OBLIGATION(my_made && g_nt[cbq_slots_avail_tag] == my_t && g_lane_ticket == my_t && g_lane_at_notify == g_lane_calls, "C09.wake: pushers are notified with the ticket actually popped, after the pop");
+    OBLIGATION(!g_claimed_W || g_woken[cbq_slots_avail_tag], "C09.wake: a pusher waiting for ANY head ticket this pop consumed (including skipped invalid slots) is woken");
+    OBLIGATION(g_waits == 0 || (g_wait_tag == cbq_items_avail_tag), "C09.wake: a pop sleeps on the items monitor");
+    VACUITY_END();
+}
+void h_wake_push(void) {
+    struct bqueue b; winit(1, &b);
+    internal_push(&b);
+    OBLIGATION(g_notifies[cbq_items_avail_tag] == 1 && g_notifies[cbq_slots_avail_tag] == 0, "C09.wake: a push notifies the poppers' monitor once, and only it");
+    OBLIGATION(my_made && g_nt[cbq_items_avail_tag] == my_t && g_lane_calls == 1 && g_lane_ticket == my_t && g_lane_at_notify == 1, "C09.wake: poppers are notified with the pushed ticket, after the item is stored");
+    OBLIGATION(!g_claimed_W || g_woken[cbq_items_avail_tag], "C09.wake: the popper waiting for this ticket is woken");
+    OBLIGATION(g_waits == 0 || (g_wait_tag == cbq_slots_avail_tag && g_wait_ctx == (ptrdiff_t)(my_t - (size_t)b.my_capacity)), "C09.wake: a full-queue push sleeps on the slots monitor with context ticket - capacity: it is runnable as soon as pop number ticket-capacity has taken its ticket");
+    VACUITY_END();
+}
+void h_wake_popif(void) {
+    struct bqueue b; winit(0, &b);
+    bool ok = internal_pop_if_present(&b, NULL);
+    OBLIGATION(ok == my_made, "C09.wake: try_pop result");
+    OBLIGATION(!ok || (g_notifies[cbq_slots_avail_tag] == 1 && g_nt[cbq_slots_avail_tag] == my_t && (!g_claimed_W || g_woken[cbq_slots_avail_tag])), "C09.wake: a successful try_pop wakes the pusher waiting for its ticket");
+    VACUITY_END();
+}
+#endif
 #endif
